@@ -43,9 +43,9 @@ type world struct {
 	callerSlice []*utils.PriorityQueueItem
 	sentinels   [2]*utils.PriorityQueueItem
 	qs          []utils.PriorityQueue
-	isMin []bool
-	refs  [][]refItem
-	tag   int
+	isMin       []bool
+	refs        [][]refItem
+	tag         int
 }
 
 // root describes how the first queue is constructed: kind + items handed to the constructor.
@@ -154,6 +154,23 @@ func (w *world) observe(after op) (string, string) {
 		return k, fmt.Sprintf("after %v: %s", after, d)
 	}
 	for q := range w.qs {
+		// Values() is an observation too (a copy of the values): it must see exactly the held items and disturb nothing -
+		// it is made first, so that every check below also sees what it left behind
+		vals := []string{}
+		for _, v := range w.qs[q].Values() {
+			vals = append(vals, fmt.Sprint(v))
+		}
+		wantVals := []string{}
+		for _, r := range w.refs[q] {
+			wantVals = append(wantVals, fmt.Sprint(r.tag))
+		}
+		sort.Strings(vals)
+		sort.Strings(wantVals)
+		if strings.Join(vals, ",") != strings.Join(wantVals, ",") {
+			return "values", fmt.Sprintf("after %v: q%d.Values()=%v, reference %v", after, q, vals, wantVals)
+		}
+	}
+	for q := range w.qs {
 		if w.qs[q].Len() != len(w.refs[q]) {
 			return "len", fmt.Sprintf("after %v: q%d.Len()=%d, reference holds %d", after, q, w.qs[q].Len(), len(w.refs[q]))
 		}
@@ -195,6 +212,115 @@ func (w *world) drain() (string, string) {
 		}
 	}
 	return "", ""
+}
+
+// drainIter empties every queue through ToIterator (the queue's own "pop everything in order") and checks the order.
+func (w *world) drainIter() (key, desc string) {
+	defer func() {
+		if r := recover(); r != nil {
+			key, desc = "drain-iterator-panic", fmt.Sprint(r)
+		}
+	}()
+	for q := range w.qs {
+		n := 0
+		for it := range w.qs[q].ToIterator() {
+			if len(w.refs[q]) == 0 {
+				return "drain-iterator-extra-item", fmt.Sprintf("q%d's iterator yields more items than the queue holds", q)
+			}
+			want := w.extreme(q)
+			if it.Priority() != want {
+				return "drain-iterator-order", fmt.Sprintf("q%d's iterator yields priority %v at position %d, reference extreme is %v", q, it.Priority(), n, want)
+			}
+			found := -1
+			for i, r := range w.refs[q] {
+				if r.tag == it.Value().(int) && r.p == it.Priority() {
+					found = i
+				}
+			}
+			if found < 0 {
+				return "drain-iterator-foreign-item", fmt.Sprintf("q%d's iterator yields (%v,%v) which the queue does not hold", q, it.Priority(), it.Value())
+			}
+			w.refs[q] = append(append([]refItem{}, w.refs[q][:found]...), w.refs[q][found+1:]...)
+			n++
+		}
+		if len(w.refs[q]) != 0 {
+			return "drain-iterator-short", fmt.Sprintf("q%d's iterator ended with %d items still held", q, len(w.refs[q]))
+		}
+	}
+	return "", ""
+}
+
+// largeQueues is a directed part beyond the BFS bounds: queues that grow to thousands of items and shrink again (any
+// resizing or re-packing of the storage happens only there), with ties, a reverse in the middle, every pop checked.
+func largeQueues(run *ev.Run) int {
+	steps := 0
+	for _, min := range []bool{true, false} {
+		for _, n := range []int{1100, 2600, 4200} {
+			w := newWorld(root{Min: min})
+			seed := uint64(n)*7919 + 13
+			rnd := func(m int) int {
+				seed = seed*6364136223846793005 + 1442695040888963407
+				return int((seed >> 33) % uint64(m))
+			}
+			fail := func(k, d string) {
+				run.Violation(k+":large-queue", fmt.Sprintf("min=%v n=%d: %s", min, n, d), map[string]interface{}{"large_queue": map[string]interface{}{"min": min, "n": n}})
+			}
+			ok := true
+			step := func(o op, light bool) {
+				if !ok {
+					return
+				}
+				steps++
+				var k, d string
+				if light && o.Kind == "push" {
+					// (full observation after each of thousands of pushes is quadratic; pops are always checked)
+					w.tag++
+					w.qs[o.Q].Push(utils.NewPriorityQueueItem(float32(o.P), w.tag))
+					w.refs[o.Q] = append(w.refs[o.Q], refItem{float32(o.P), w.tag})
+				} else if o.Kind == "pop" {
+					want := w.extreme(o.Q)
+					it := w.qs[o.Q].Pop()
+					found := -1
+					for i, r := range w.refs[o.Q] {
+						if r.tag == it.Value().(int) && r.p == it.Priority() {
+							found = i
+						}
+					}
+					if it.Priority() != want || found < 0 {
+						k, d = "pop-order", fmt.Sprintf("pop #%d with %d items left returned priority %v, reference extreme %v", steps, len(w.refs[o.Q]), it.Priority(), want)
+					} else {
+						w.refs[o.Q] = append(w.refs[o.Q][:found], w.refs[o.Q][found+1:]...)
+						if len(w.refs[o.Q]) > 0 && w.qs[o.Q].Peek().Priority() != w.extreme(o.Q) {
+							k, d = "peek-order", fmt.Sprintf("after pop #%d Peek()=%v, reference extreme %v", steps, w.qs[o.Q].Peek().Priority(), w.extreme(o.Q))
+						}
+					}
+				} else {
+					k, d = w.apply(o)
+				}
+				if k != "" {
+					ok = false
+					fail(k, d)
+				}
+			}
+			for i := 0; i < n; i++ {
+				step(op{Q: 0, Kind: "push", P: rnd(40)}, true)
+			}
+			for i := 0; i < n*7/8; i++ { // drain below an eighth of the peak
+				step(op{Q: 0, Kind: "pop"}, true)
+			}
+			step(op{Q: 0, Kind: "reverse"}, false)
+			for i := 0; i < 300; i++ {
+				step(op{Q: 0, Kind: "push", P: rnd(40)}, true)
+				step(op{Q: 1, Kind: "push", P: rnd(40)}, true)
+			}
+			for q := 0; q < 2 && ok; q++ {
+				for len(w.refs[q]) > 0 && ok {
+					step(op{Q: q, Kind: "pop"}, true)
+				}
+			}
+		}
+	}
+	return steps
 }
 
 // canon describes the real state including slice aliasing.
@@ -338,9 +464,13 @@ func main() {
 					nw, k, desc := build(min, np)
 					transitions++
 					if k == "" {
-						// complete pop order from this state, on a throw-away copy
+						// complete pop order from this state, on a throw-away copy; and once more through the queue's iterator
 						dw, _, _ := build(min, np)
 						k, desc = dw.drain()
+					}
+					if k == "" {
+						dw, _, _ := build(min, np)
+						k, desc = dw.drainIter()
 					}
 					if k != "" {
 						outcomes[k]++
@@ -365,9 +495,12 @@ func main() {
 			}
 		}
 	}
+	large := largeQueues(run)
+	transitions += large
 	run.Assumptions = []string{
+		"directed part: min and max queues grown to 1100 / 2600 / 4200 items (priorities 0..39 with ties), drained below an eighth, reversed, refilled and drained, every pop and the following Peek checked",
 		"priorities from {0,1,2,3} (ties included), at most " + fmt.Sprint(maxLen) + " items per queue and " + fmt.Sprint(maxQ) + " live queues",
-		"Peek/Len/ToSlice are observations made after every step on every live queue; every reached state is additionally drained by pops",
+		"Values/Peek/Len/ToSlice are observations made after every step on every live queue (Values first); every reached state is additionally drained by pops and, on another copy, through ToIterator",
 	}
 	run.Finish(ev.Coverage{
 		"states":                        states,
@@ -378,6 +511,7 @@ func main() {
 		"distinct_nontrivial":           states,
 		"rule":                          "BFS over push/pop/reverse sequences on the real queue from 162 roots (empty min/max queue and every constructor call with 2 or 3 initial items); distinct = canonical state (heap layout up to cap, backing-array aliasing between queues, reference multiset)",
 		"outcome_classes":               outcomes,
+		"large_queue_steps":             large,
 		"samples":                       samples.List(),
 		"exhaustive":                    true,
 		"explanation":                   "the model is the implementation itself; the reference oracle is a multiset per live queue",
@@ -398,9 +532,23 @@ func replay(path string) {
 	if err := json.Unmarshal(b, &f); err != nil {
 		ev.Tool("%v", err)
 	}
+	if b2, _ := os.ReadFile(path); strings.Contains(string(b2), "large_queue") {
+		run := ev.Start("C19", "model_checking")
+		largeQueues(run)
+		if run.NewViolations() > 0 {
+			fmt.Printf("VIOLATION property=%s replay=%s\n  large-queue\n", ev.As("C19"), path)
+			os.Exit(1)
+		}
+		fmt.Println("replay: property held")
+		return
+	}
 	w, k, d := build(f.Replay.Min, f.Replay.Ops)
 	if k == "" {
 		k, d = w.drain()
+	}
+	if k == "" {
+		w2, _, _ := build(f.Replay.Min, f.Replay.Ops)
+		k, d = w2.drainIter()
 	}
 	if k != "" {
 		fmt.Printf("VIOLATION property=%s replay=%s\n  %s: %s\n", ev.As("C19"), path, k, d)
